@@ -30,6 +30,51 @@ def pyx_constants(units_mod):
     return ns["_nonlinear_packed_order"], ns["_nonlinear_internal_units"]
 
 
+def math_module():
+    """`math` for code under test: symbolic arguments go to the symbolic versions, concrete ones to the real module"""
+    import math as _m
+
+    class _M(types.ModuleType):
+        def __getattr__(self, n):
+            return getattr(_m, n)
+    mod = _M("math")
+
+    def wrap(name, symf):
+        real = getattr(_m, name)
+
+        def f(x, *a):
+            if core.is_sym(x) or isinstance(x, symnp.NonFinite):
+                return symf(x, *a)
+            return real(x, *a)
+        return f
+    mod.exp = wrap("exp", lambda x: symnp.exp(symnp.SymArray(symnp._obj([x]))).a[0])
+    mod.log = wrap("log", lambda x: core.uf("LOG", x))
+    mod.sqrt = wrap("sqrt", lambda x: core.uf("SQRT", x))
+    mod.sin = wrap("sin", lambda x: core.uf("SIN", x))
+    mod.cos = wrap("cos", lambda x: core.uf("COS", x))
+    mod.fabs = wrap("fabs", lambda x: abs(x))
+    mod.floor = wrap("floor", lambda x: symnp.floor(x))
+    mod.ceil = wrap("ceil", lambda x: symnp.ceil(x))
+    mod.isfinite = wrap("isfinite", lambda x: not isinstance(x, symnp.NonFinite))
+    mod.isnan = wrap("isnan", lambda x: isinstance(x, symnp.NonFinite) and x.kind == "nan")
+    mod.isinf = wrap("isinf", lambda x: isinstance(x, symnp.NonFinite) and x.kind != "nan")
+    return mod
+
+
+import functools as _functools
+import weakref as _weakref
+_LRU = type(_functools.lru_cache()(lambda: None))
+_STACKS = _weakref.WeakSet()
+
+
+def _restore_all():
+    for st in list(_STACKS):
+        st.restore_globals()
+
+
+core.PATH_START.append(_restore_all)
+
+
 class Stack:
     """shims + real modules. `helper_cls` is what `thejoker.src.fast_likelihood.CJokerHelper`
     resolves to (a contract stub or the transliterated kernel)."""
@@ -54,6 +99,7 @@ class Stack:
             "tables": env.tables_module(w),
             "tempfile": env.tempfile_module(w),
             "os": env.os_module(w),
+            "math": math_module(),
             "pytensor": types.SimpleNamespace(__version__="3.3.2"),
             "thejoker.logging": loader.logging_shim(),
         }
@@ -81,6 +127,8 @@ class Stack:
             sh.update(extra_shims)
         self.shims = sh
         self.mods = {}
+        self._snap = []
+        _STACKS.add(self)
         for name in load:
             self.load(name)
 
@@ -89,7 +137,45 @@ class Stack:
         self.shims["thejoker.%s" % name] = mod
         self.mods[name] = mod
         setattr(self, name, mod)
+        self._snapshot(mod)
         return mod
+
+    # ---- process state of the code under test.  Every explored path stands for a fresh process: mutable
+    # module-level / class-level containers and memoising wrappers are put back to their load-time content
+    # at the start of each path, so that state kept between calls (a cache, a registry) is seen by the
+    # call *histories* a harness executes within one path and never leaks from one path into the next.
+    def _snapshot(self, mod):
+        import weakref
+
+        def containers(ns, owner):
+            for k, v in list(ns.items()):
+                if k.startswith("__"):
+                    continue
+                if isinstance(v, (dict, list, set, weakref.WeakKeyDictionary, weakref.WeakValueDictionary)):
+                    try:
+                        self._snap.append((v, type(v)(v) if not isinstance(v, (weakref.WeakKeyDictionary, weakref.WeakValueDictionary)) else dict(v)))
+                    except Exception:
+                        pass
+                elif isinstance(v, _LRU):
+                    self._snap.append((v, None))
+        containers(mod.__dict__, mod)
+        for k, v in list(mod.__dict__.items()):
+            if isinstance(v, type) and getattr(v, "__module__", None) == mod.__name__:
+                containers(vars(v), v)
+
+    def restore_globals(self):
+        for obj, content in self._snap:
+            if content is None:
+                obj.cache_clear()
+            elif isinstance(obj, list):
+                obj[:] = content
+            elif isinstance(obj, set):
+                obj.clear()
+                obj.update(content)
+            else:
+                for k in list(obj.keys()):
+                    del obj[k]
+                obj.update(content)
 
 
 class _Unsupported:
